@@ -42,10 +42,15 @@ def gen_program(ch: Choices, root: str):
                     f"    stamp(f)\n")
             val = "f"
         elif klass in ("Dir", "ContentDir", "IDir"):
+            # (some directories keep one member in a subdirectory)
+            nested = ch.coin(0.5, "nested-member")
+            member = ("os.path.join(d.path, 'sub', 'm%d.txt' % k) if k else os.path.join(d.path, 'm0.txt')"
+                      if nested else "os.path.join(d.path, 'm%d.txt' % k)")
             body = (f"    d = {klass}({path + '_dir'!r})\n"
                     f"    d.mkdir()\n"
+                    + (f"    os.makedirs(os.path.join(d.path, 'sub'), exist_ok=True)\n" if nested else "") +
                     f"    for k in range(2):\n"
-                    f"        m = File(os.path.join(d.path, 'm%d.txt' % k))\n"
+                    f"        m = File({member})\n"
                     + (f"        m.write('')\n" if empty else
                        f"        m.write('content-{i}-%s-%d' % (x, k){pad})\n") +
                     f"        stamp(m)\n"
@@ -97,7 +102,7 @@ def paths_of(spec) -> list[str]:
     base = spec["path"] + ("_dir" if k in ("Dir", "ContentDir", "IDir") else "_set")
     if not os.path.isdir(base):
         return []
-    return sorted(os.path.join(base, f) for f in os.listdir(base))
+    return sorted(os.path.join(r, f) for r, _dirs, files in os.walk(base) for f in files)
 
 
 def snapshot(spec) -> tuple:
